@@ -273,6 +273,19 @@ type UnitResult struct {
 	unit        *Unit
 }
 
+// shortName: the package name used in obligation names; `deprecated/X` is called deprecated_X when a package X also
+// exists at the top level (two packages are named bucketteer).
+func (eng *Engine) shortName(p *packages.Package) string {
+	rel := strings.TrimPrefix(strings.TrimPrefix(p.PkgPath, repoMod), "/")
+	if strings.HasPrefix(rel, "deprecated/") {
+		x := strings.TrimPrefix(rel, "deprecated/")
+		if fi, err := os.Stat(filepath.Join(repoDir, x)); err == nil && fi.IsDir() {
+			return "deprecated_" + strings.ReplaceAll(x, "/", "_")
+		}
+	}
+	return p.Types.Name()
+}
+
 // verifyFunc generates the obligations of one function.
 func (eng *Engine) verifyFunc(p *packages.Package, key string, safetyOnly bool) (*UnitResult, error) {
 	fd, obj := eng.findFunc(p, key)
@@ -285,12 +298,12 @@ func (eng *Engine) verifyFunc(p *packages.Package, key string, safetyOnly bool) 
 	if ct != nil {
 		mode = ct.Mode
 	}
-	u := &Unit{eng: eng, pkg: p, info: p.TypesInfo, fset: eng.fset, pkgName: p.Types.Name(), key: key, decl: fd, obj: obj,
+	u := &Unit{eng: eng, pkg: p, info: p.TypesInfo, fset: eng.fset, pkgName: eng.shortName(p), key: key, decl: fd, obj: obj,
 		sig: obj.Type().(*types.Signature), c: newCtx(mode == "bv", p.Types), ct: ct, cs: cs, nameCount: map[string]int{},
 		paramSyms: map[string]string{}, unfolded: map[string]bool{}, exprCount: map[string]int{}, calledContracts: map[string]bool{},
 		usedLemmas: map[string]bool{}, externalCalls: map[string]bool{}, loopsSeen: map[int]bool{}, sliceDefs: map[string]string{}, lenHints: map[string]int64{}, rangeVars: map[int]*types.Var{}, visitedVars: map[int]*types.Var{},
 		entryVals: map[*types.Var]Term{}}
-	res := &UnitResult{Pkg: p.Types.Name(), Key: key, Mode: mode, Contracted: ct != nil, Ctx: u.c, unit: u}
+	res := &UnitResult{Pkg: eng.shortName(p), Key: key, Mode: mode, Contracted: ct != nil, Ctx: u.c, unit: u}
 	if fd.Body == nil {
 		return nil, fmt.Errorf("function %s has no body", key)
 	}
